@@ -199,6 +199,12 @@ class FuncV:
         self.qualname = qualname
 
 
+class DictV:
+    """dict with concrete keys (strings or ints) and symbolic values."""
+    def __init__(self, items):
+        self.items = dict(items)      # key (str | int) -> value
+
+
 class RangeV:
     def __init__(self, lo, hi, step=1):
         self.lo, self.hi, self.step = lo, hi, step
